@@ -29,12 +29,29 @@ type c05result struct {
 	msg   string
 }
 
+// c05obs is what C19 reads off one C05 execution: the events written and the movement of the logins counter.
+type c05obs struct {
+	Events  []auditevent.AuditEvent
+	Metrics map[string]float64
+}
+
 func oneC05(t *testing.T, x Exp, pid string, order string) (msg string) {
+	return oneC05obs(t, x, pid, order, nil)
+}
+
+func oneC05obs(t *testing.T, x Exp, pid string, order string, out *c05obs) (msg string) {
 	synctest.Test(t, func(t *testing.T) {
 		rec := &recorder{fail: strings.HasSuffix(order, "encoder-fails")}
 		ew := auditevent.NewAuditEventWriter(rec)
 		logins := make(chan common.RemoteUserLogin) // unbuffered, like cmd/namedpipe.go
-		mp := metrics.NewPrometheusMetricsProviderForRegisterer(prometheus.NewRegistry())
+		reg := prometheus.NewRegistry()
+		mp := metrics.NewPrometheusMetricsProviderForRegisterer(reg)
+		if out != nil {
+			defer func() {
+				out.Events = append([]auditevent.AuditEvent{}, rec.copies...)
+				out.Metrics = (&rig{reg: reg}).counters()
+			}()
+		}
 		proc := sshd.NewSshdProcessor(context.Background(), logins, nodeName, machineID, ew, mp)
 		ctx, cancel := context.WithCancel(context.Background())
 		defer cancel()
